@@ -242,11 +242,34 @@ def r5_scalar_solver(ctx):
               "interval", "the coordinate interval must be [-min positive c0/nu, -max negative c0/nu]", node=iv)
 
 
+def r6_solver_chain_wiring(ctx):
+    """each stage of a solver chain is built from its own NumSys class (no late-bound loop variable)"""
+    from ..idioms import late_binding_closures
+    n = 0
+    for q in ("EqSystem.get_neqsys_chained_conditional", "EqSystem.get_neqsys_conditional_chained", "EqSystem.get_neqsys_static_conditions"):
+        fn = ctx.func(EQ, q)
+        a = EQ + ":" + q
+        bad = late_binding_closures(fn)
+        n += 1
+        ctx.check(not bad, a, "no-late-bound-stage", "a closure created per NumSys stage reads the loop variable %s when it is *called*: every stage of the chain would be built from the last class "
+                  "(bind it through a factory call or a default argument)" % sorted({v for _, v, _ in bad}), node=bad[0][0] if bad else fn)
+        ctx.check(has(fn, "self._SymbolicSys_from_NumSys(NS, ") and has(fn, "for NS in NumSys"), a, "stage-per-NumSys", "each NumSys of the chain must be turned into its own system", node=fn)
+    fn = ctx.func(EQ, "EqSystem.get_neqsys_chained_conditional")
+    ctx.check(has(fn, "(self._fw_cond_factory(ri), self._bw_cond_factory(ri, NS.small)) for ri in self.phase_transfer_reaction_idxs()"), EQ + ":EqSystem.get_neqsys_chained_conditional", "conditions-per-phase-transfer-reaction",
+              "one (forward, backward) condition pair per phase-transfer reaction, with the stage's own `small`", node=fn)
+    ss = ctx.func(EQ, "EqSystem._SymbolicSys_from_NumSys")
+    ctx.check(has(ss, "ns = NS(self, backend=sp, rref_equil=rref_equil, rref_preserv=rref_preserv, precipitates=conds, new_eq_params=new_eq_params)"), EQ + ":EqSystem._SymbolicSys_from_NumSys", "flags-forwarded",
+              "the NumSys must receive its own rref flags and precipitate conditions", node=ss)
+    gn = ctx.func(EQ, "EqSystem.get_neqsys")
+    ctx.check(has(gn, "return getattr(self, 'get_neqsys_' + neqsys_type)(**new_kw)") and has(gn, "new_kw['NumSys'] = (NumSys,)"), EQ + ":EqSystem.get_neqsys", "dispatch", "get_neqsys must dispatch on the type name with a tuple of NumSys classes", node=gn)
+
+
 RULES = [
     Rule("C08-R1", r1_flag_dataflow, 12, "sanity flag = check(returned vector, same initial concentrations) in root/_solve/roots"),
     Rule("C08-R2", r2_sanity_test, 6, "_result_is_sane: existential tests, True only when neither holds"),
     Rule("C08-R3", r3_failure_surfaced, 7, "failed solve warns; EqCalcResult stores one call's results"),
     Rule("C08-R4", r4_precipitation, 8, "precipitation switching conditions mirror each other; dissolved() stoichiometric"),
+    Rule("C08-R6", r6_solver_chain_wiring, 9, "solver chain: one system per NumSys stage, no late-bound loop variable"),
     Rule("C08-R5", r5_scalar_solver, 6, "scalar solver: residual K-Q along c0+nu*rc, result on the same coordinate"),
 ]
 
@@ -273,7 +296,11 @@ MUTANTS += [
     Mutant("result-other-sign", [(SE, "    return c0 + rc * stoich", "    return c0 - rc * stoich")], "C08-R5", "c0+rc"),
 ]
 
+MUTANTS.append(Mutant("chain-late-binding-lambda", [(EQ, "                    mk_factory(NS),\n", "                    lambda conds: self._SymbolicSys_from_NumSys(NS, conds, rref_equil, rref_preserv, **kwargs),\n")], "C08-R6", "late-bound"))
+MUTANTS.append(Mutant("bracket-max-of-formed", [(SE, "lower = -np.min(limits[np.argwhere(limits > 0)])", "lower = -np.max(limits[np.argwhere(limits > 0)])")], "C08-R5", "interval"))
+
 TWINS = [
+    Twin("chain-default-arg-binding", [(EQ, "                    mk_factory(NS),\n", "                    lambda conds, NS=NS: self._SymbolicSys_from_NumSys(NS, conds, rref_equil, rref_preserv, **kwargs),\n")]),
     Twin("sanity-method-any", [(EQ, "neg_conc, too_much = np.any(x < 0), np.any(x > sc_upper_bounds * (1 + rtol))", "neg_conc, too_much = (x < 0).any(), (x > sc_upper_bounds * (1 + rtol)).any()")]),
     Twin("sanity-separate-assigns", [(EQ, "        neg_conc, too_much = np.any(x < 0), np.any(x > sc_upper_bounds * (1 + rtol))\n", "        neg_conc = np.any(x < 0)\n        too_much = np.any(x > (1 + rtol) * sc_upper_bounds)\n")]),
     Twin("sanity-or-commuted", [(EQ, "        if neg_conc or too_much:\n            if neg_conc:", "        if too_much or neg_conc:\n            if neg_conc:")]),
